@@ -20,7 +20,7 @@ for d in sorted((ROOT / "seeded").iterdir(), key=lambda p: (p.name.split("-")[0]
         funcs = [funcs]
     where = ", ".join(str(f).split("/")[-1] for f in funcs[:2]).replace("|", "/")[:60]
     note = str(m.get("note", ""))
-    first = "missed at first" in note or "caught by C" in note or "is C14's property" in note
+    first = bool(note)  # a note is written exactly when the check had to be strengthened (or another check reports the change)
     rows.append((m.get("seed_id", d.name), where, summ, ", ".join(caught) if caught else "**not caught**", "strengthened" if first else "as built"))
 print("| seed | where | change | caught by | check |")
 print("|---|---|---|---|---|")
